@@ -48,7 +48,7 @@ func syms(s ...string) []string { return s }
 
 // Byte alphabets (S1).
 var (
-	SigmaGen = syms(" ", "\n", "a", "b", "r", "e", "x", "0", "1", "8", ".", "'", "\"", "`", "\\", "-", "/", "*", "#", ";", "@", "<", "_", "\xff")
+	SigmaGen = syms(" ", "\n", "\r", "a", "b", "r", "e", "x", "0", "1", "8", ".", "'", "\"", "`", "\\", "-", "/", "*", "#", ";", "@", "<", "_", "\xff")
 	SigmaNum = syms("0", "1", "9", "a", "f", "x", "X", "e", "E", ".", "+", "-", "_", " ")
 	SigmaStr = syms("'", "\"", "`", "\\", "n", "x", "u", "U", "0", "3", "7", "8", "a", "r", "b", "\n")
 	SigmaCmt = syms("#", "-", "/", "*", "\n", "a", "'", ";", " ", "\"")
@@ -67,7 +67,7 @@ type ByteAlphabet struct {
 
 // S1 lists the byte alphabets of DESIGN.md §4.
 var S1 = []ByteAlphabet{
-	{"gen", SigmaGen, 5, 6},
+	{"gen", SigmaGen, 5, 6}, // 25 symbols
 	{"num", SigmaNum, 6, 7},
 	{"str", SigmaStr, 5, 7},
 	{"cmt", SigmaCmt, 6, 8},
